@@ -94,26 +94,32 @@ def run(case, kind, seed=0, n_ops=10, ops=None):
     try:
         ref_gp = GraphProcessor(b.dsg, encoder_type=SelChoiceEncoderType.COMPLETE)
         E_ref, _ = procdrive.encoding_of(b, ref_gp)
-        rows_ref = _rows(ref_gp, E_ref, {}) if [e[:3] for e in E_ref] == [e[:3] for e in E] else None
+        rows_ref_all = _rows(ref_gp, E_ref, {})
+        rows_ref = rows_ref_all if [e[:3] for e in E_ref] == [e[:3] for e in E] else None
         if kind == 'complete':
             rows0 = rows_ref
             if rows0 is None:
                 return {'skip': 'enumeration-unavailable', 'tags': tags}
     except Exception as e:
         return {'skip': 'enumeration:%s' % type(e).__name__, 'tags': tags}
+    ref_index = {(e[0], e[1]): j for j, e in enumerate(E_ref)}
 
     def restricted_empty(fixed):
-        """no valid design has all the fixed values (the restricted problem is empty): decoding may then fail explicitly"""
-        if rows_ref is None:
-            return None
-        for r in rows_ref:
+        """no valid design has all the fixed values (the restricted problem is empty): decoding may then fail explicitly.
+        Decided on the rows of the reference (complete) encoding; a variable the reference encoding does not have (a choice
+        with a single option) restricts nothing."""
+        for r in rows_ref_all:
             ok = True
             for i, v in fixed.items():
                 e = E[i]
+                j = ref_index.get((e[0], e[1]))
+                if j is None:
+                    continue
                 if e[0] == 'sel':
-                    ok = ok and r[i] == v
+                    node = e[2][v] if 0 <= v < len(e[2]) else None
+                    ok = ok and r[j] != -1 and 0 <= r[j] < len(E_ref[j][2]) and E_ref[j][2][r[j]] == node
                 elif e[2][0] == 'disc':
-                    ok = ok and r[i] in (v, -1)
+                    ok = ok and r[j] in (v, -1)
             if ok:
                 return False
         return True
